@@ -79,7 +79,8 @@ def must_unwrap(repo: Repo, chk: Check) -> None:
 
     f = repo.method("_rpc._client.RpcClient", "_process_response")
     chk.analysed(f)
-    summ = Summary(f, ["self", "response", "pdu_header", "resp_type", "encrypt_offsets"], prune=True)
+    # asserts are not checks: `python -O` strips them, so a failing assert may fall through on these paths
+    summ = Summary(f, ["self", "response", "pdu_header", "resp_type", "encrypt_offsets"], prune=True, asserts_may_pass=True)
     for n in body_nodes(f.node):
         if isinstance(n, (ast.Assign, ast.AugAssign, ast.AnnAssign)):
             for tg in (n.targets if isinstance(n, ast.Assign) else [n.target]):
